@@ -82,21 +82,21 @@ type Config struct {
 
 // Stats are the per-run measurements that end up in evidence.
 type Stats struct {
-	Steps          int
-	Effective      int
-	Ops            map[string]int
-	Probes         map[string]int
-	Faults         map[string]int
-	Foreign        int
-	ForeignSigs    map[string]int
-	StructUnconf   int
-	States         map[uint64]struct{}
-	Pairings       map[string]int
-	GCs            int
-	SchedRuns      int
-	Decisions      int
-	Interleavings  map[uint64]struct{}
-	DiskTuples     map[string]int
+	Steps         int
+	Effective     int
+	Ops           map[string]int
+	Probes        map[string]int
+	Faults        map[string]int
+	Foreign       int
+	ForeignSigs   map[string]int
+	StructUnconf  int
+	States        map[uint64]struct{}
+	Pairings      map[string]int
+	GCs           int
+	SchedRuns     int
+	Decisions     int
+	Interleavings map[uint64]struct{}
+	DiskTuples    map[string]int
 }
 
 func newStats() *Stats {
@@ -118,15 +118,15 @@ type World struct {
 	Fails []Failure
 	St    *Stats
 
-	step    int
-	curOp   string
-	curTag  string
-	panicked bool
-	unconf  map[[2]uintptr]bool
-	pending []Step
+	step       int
+	curOp      string
+	curTag     string
+	panicked   bool
+	unconf     map[[2]uintptr]bool
+	pending    []Step
 	selfProbes int
-	outs    map[int]bool
-	touched bool
+	outs       map[int]bool
+	touched    bool
 	// Repair makes the world continue after a failure (resync + rebuild).
 	NoRepair bool
 }
@@ -426,10 +426,25 @@ func (w *World) rebuild(i int) {
 
 // checkOutput compares an output object with its model; on mismatch records a
 // failure under tag and repairs.
+// provTag adds the property whose statement covers later operations on a decoded object: a
+// frozen view "supports all read and (copying) write operations" (C13), a bitmap read back from
+// the portable format "supports all further operations" (C05).
+func (w *World) provTag(i int, tag string) string {
+	o := w.B[i]
+	switch {
+	case o.Frozen:
+		return tag + "+C13"
+	case o.ZeroCopy || strings.HasPrefix(o.Prov, "decoded:"):
+		return tag + "+C05"
+	}
+	return tag
+}
+
 func (w *World) checkOutput(i int, tag string) {
 	o := w.B[i]
 	ok, d := eq32(o.BM, o.M)
 	if !ok {
+		tag = w.provTag(i, tag)
 		if !w.readFault(i, d) {
 			w.fail(tag, "contents", "result differs from model", fmt.Sprintf("slot %d after %s: %s", i, w.curOp, d))
 		}
@@ -445,6 +460,20 @@ func (w *World) interferenceTag() string {
 		return "C07+C02"
 	}
 	return "C07"
+}
+
+// interTag: interference that involves a bitmap backed by, or derived from, a caller's buffer
+// also breaks C08 ("keeps behaving as a correct set while the buffer stays intact").
+func (w *World) interTag(slots ...int) string {
+	tag := w.interferenceTag()
+	for _, i := range slots {
+		if i >= 0 && i < len(w.B) {
+			if o := w.B[i]; o.ZeroCopy || o.Frozen || len(o.Regions) > 0 {
+				return tag + "+C08"
+			}
+		}
+	}
+	return tag
 }
 
 // readFault attributes a memory fault met while reading a bitmap's contents:
@@ -506,7 +535,7 @@ func (w *World) afterStep(primaryTag string) {
 				case w.curOp == "gc":
 					w.fail("C02", "gc-lifetime", "contents changed across a garbage collection ("+o.Prov+")", fmt.Sprintf("slot %d (%s) changed during a collection: %s", i, o.Prov, d))
 				default:
-					w.fail(w.interferenceTag(), "bystander", "bitmap not involved as output changed", fmt.Sprintf("slot %d (%s) changed during %s: %s", i, o.Prov, w.curOp, d))
+					w.fail(w.interTag(i), "bystander", "bitmap not involved as output changed", fmt.Sprintf("slot %d (%s) changed during %s: %s", i, o.Prov, w.curOp, d))
 				}
 			}
 			w.rebuild(i)
